@@ -368,6 +368,10 @@ func (root *Root) ParseReader(r io.Reader) error {
 		err = root.addTypes(types...)
 	}
 	if err == nil {
+		// Derive the schema from the operation types before the extensions
+		// are applied so that an extend schema finds it whether the operation
+		// types are in this document or in an earlier one.
+		root.assureSchema()
 		undo, err = root.addExtends(extends...)
 	}
 	if err == nil {
